@@ -89,19 +89,36 @@ Proof.
   - rewrite F. reflexivity.
 Qed.
 
+(* has_root / is_absolute asked of an iterator in any reachable state = the remainder is rooted *)
+Lemma us_has_root_spec s : inv usep true s = true -> us_has_root s = root_first (ucomps (u_remaining s)).
+Proof.
+  intros H. unfold us_has_root, u_nextf, u_remaining. rewrite (ucomps_state s H).
+  pose proof (next_front_spec usep true usep_dot s H) as F.
+  destruct (next_front usep true s) as [[c s']|].
+  - destruct F as (E & _). rewrite E. destruct c; reflexivity.
+  - rewrite F. reflexivity.
+Qed.
+Lemma all2_map_map {A B C} (f : B -> C -> bool) (g : A -> B) (h : A -> C) l :
+  Forall (fun x => f (g x) (h x) = true) l -> all2 f (map g l) (map h l) = true.
+Proof. intros H. induction H as [|x l Hx _ IH]; cbn; [reflexivity|]. rewrite Hx, IH. reflexivity. Qed.
+
 Theorem c01_holds p sched : check_c01 p sched (model_c01 p sched) = true.
 Proof.
-  unfold check_c01, model_c01. cbn [c01_impl c01_std c01_has_root c01_is_abs c01_std_has_root c01_std_is_abs c01_try_from].
+  unfold check_c01, model_c01. cbn [c01_impl c01_std c01_has_root c01_is_abs c01_std_has_root c01_std_is_abs c01_try_from c01_flags c01_std_flags].
   unfold u_is_absolute. rewrite u_has_root_spec, u_try_from_spec.
   rewrite !Bool.eqb_reflx, ocomp_eqb_refl, !andb_true_r.
-  apply andb_true_iff. split.
-  - rewrite <- u_sched_spec.
-    set (steps := sched_run u_nextf u_nextb (u_init p) sched).
-    assert (E : map (fun x => (fst x, ucomps (u_remaining (snd x)))) steps
-                = map (fun i : option comp * list byte => (fst i, ucomps (snd i)))
-                      (map (fun x => (fst x, u_remaining (snd x))) steps)) by (rewrite map_map; reflexivity).
-    rewrite E. apply all2_map_r. intros x. cbn [fst snd]. rewrite ocomp_eqb_refl, list_eqb_refl. reflexivity.
-  - apply all2_refl. intros x. rewrite ocomp_eqb_refl, list_eqb_refl. reflexivity.
+  set (steps := sched_run u_nextf u_nextb (u_init p) sched).
+  assert (E : deq_run (ucomps p) sched = map (fun x => (fst x, ucomps (u_remaining (snd x)))) steps)
+    by (symmetry; apply u_sched_spec).
+  assert (HI : Forall (fun x => inv usep true (snd x) = true) steps)
+    by (apply (sched_inv usep true usep_dot sched (AtBeg, p) eq_refl)).
+  rewrite E.
+  repeat (apply andb_true_iff; split).
+  - apply all2_map_map. apply Forall_forall. intros x _. cbn [fst snd]. rewrite ocomp_eqb_refl, list_eqb_refl. reflexivity.
+  - apply all2_map_map. apply Forall_forall. intros x _. cbn [fst snd]. rewrite ocomp_eqb_refl, list_eqb_refl. reflexivity.
+  - apply all2_map_map. eapply Forall_impl; [|exact HI]. intros x Hx. cbn [fst snd].
+    rewrite (us_has_root_spec (snd x) Hx). rewrite !Bool.eqb_reflx. reflexivity.
+  - rewrite map_map. apply all2_map_map. apply Forall_forall. intros x _. cbn [fst snd]. rewrite !Bool.eqb_reflx. reflexivity.
 Qed.
 
 (* ------------------------------------------------------------------ C03 (Unix) *)
